@@ -58,7 +58,9 @@ MkPair(P, Q, fp) ==
         sc == p0 \o q0
         vs == UNION {OwnPts(sc[k]) : k \in 1..Len(sc)}
         u == Probes(sc, GF)
-    IN  <<p0, q0, [k \in 1..Len(p0) |-> Verts(p0[k], vs)], [k \in 1..Len(q0) |-> Verts(q0[k], vs)], u,
+        \* every loop starts at a pseudo-randomly chosen vertex
+        vx(l) == LET v == Verts(l, vs) IN RotateTo(v, ((LKey(l) + fp) % Len(v)) + 1)
+    IN  <<p0, q0, [k \in 1..Len(p0) |-> vx(p0[k])], [k \in 1..Len(q0) |-> vx(q0[k])], u,
           <<RegionOn(u, p0), RegionOn(u, PolyComplement(p0, u)), RegionOn(u, q0), RegionOn(u, PolyComplement(q0, u))>>,
           <<TopIdx(p0, u), TopIdx(q0, u)>> >>
 \* initial states <<P, chunk>>: the work is split into 4 chunks of Q per P (parallelism)
@@ -109,7 +111,8 @@ PairExact ==
             /\ LawsHold(W, RegionOn(W, P0), RegionOn(W, Q0), RegionOn(W, CP0), RegionOn(W, CQ0), PolysTouch(P0, Q0))
             /\ \A k \in 1..Len(Scene) : LoopGeometryOK(Scene[k], GF)
             \* a complemented loop is the same boundary walked backwards; vertices are distinct
-            /\ \A k \in 1..Len(Scene) : /\ Verts(Complement(Scene[k]), VSet) = Reverse(SceneVerts[k])
+            /\ \A k \in 1..Len(Scene) : /\ Verts(Complement(Scene[k]), VSet) = Reverse(Verts(Scene[k], VSet))
+                                        /\ IsRotationOf(SceneVerts[k], Verts(Scene[k], VSet))
                                         /\ Cardinality(Range(SceneVerts[k])) = Len(SceneVerts[k])
             /\ \A k \in 1..Len(P0) : DepthIn(P0, k, U0) = DepthIn(P0, k, W)
             /\ \A k \in 1..Len(Q0) : DepthIn(Q0, k, U0) = DepthIn(Q0, k, W)
@@ -171,7 +174,10 @@ EmitForest ==
     IF FullForest
     THEN PrintT(<<"CASE", ToJson(
            [op |-> "c07forest", f |-> FFace, gf |-> FGF, real |-> t[3], n |-> NN, code |-> t[1] % 1000,
-            loops |-> [k \in 1..NN |-> Verts(FPoly[FPerm[k]], FVSet)],
+            \* a loop starts one vertex before one of its corners, so that Vertex(1) - the probe of
+            \* ContainsNested - is a corner: in the "diag" realisation often a vertex shared with a sibling
+            loops |-> [k \in 1..NN |-> LET i == FPerm[k]
+                                       IN  SecondIs(Verts(FPoly[i], FVSet), Corners(FPoly[i])[((i + t[1] + FPerm[1]) % 4) + 1])],
             want |-> [k \in 1..NN |-> LET i == FPerm[k]
                                       IN  [depth |-> WantDepth(FP, i), hole |-> WantHole(FP, i),
                                            parent |-> IF FP[i] = 0 THEN -1 ELSE FPos(FP[i]) - 1,
